@@ -119,7 +119,10 @@ def run_shard(ctx: Ctx, spec):
         )
         @hypothesis.given(st.randoms(use_true_random=False))
         def t(rng):
-            rules = ggen.Gen(rng, ggen.PROFILES["trivia"], max_rules=6).grammar()
+            feats = set(ggen.PROFILES["trivia"])
+            if rng.random() < 0.3:
+                feats.add("bait")  # skip-until shapes and squashable choices next to trivia and modifiers
+            rules = ggen.Gen(rng, feats, max_rules=6).grammar()
             probs = ganalysis.Analysis(rules).problems(BUILTIN_IDS)
             if probs:
                 raise RuntimeError(f"generator produced an ill-formed grammar: {probs} {rules}")
